@@ -108,6 +108,17 @@ def mutOf (kind var step : Nat) : Mut :=
   | 5 => .delVar var
   | _ => .writeRoot d
 
+/-- kinds 0–6: dataset mutators; 7 fill the cache `var`, 8 switch it in place, 9 drop it (grid roots only) -/
+def actsOf (onGrid : Bool) (kind var step : Nat) : List Act :=
+  let d : List Int := [2000 + step]
+  if onGrid then
+    match kind with
+    | 7 => (CacheOp.fill var d).acts
+    | 8 => (CacheOp.switch var d).acts
+    | 9 => (CacheOp.drop var).acts
+    | _ => (mutOf kind var step).actsGrid
+  else (mutOf kind var step).actsDs
+
 def optFrame (h h' : Heap) : Option Nat → Nat
   | some r => fcode (frameJ h h' r)
   | none => 3
@@ -115,12 +126,11 @@ def optFrame (h h' : Heap) : Option Nat → Nat
 /-- one mutation step by `side` (0 grid, 1 copy, 2 export, 3 first input); answers, for each of
     grid / copy / export / first input, whether everything it reaches is unchanged -/
 def stepOp (s : St) (side kind var step : Nat) : St × List Nat :=
-  let m := mutOf kind var step
   let h' := match side with
-    | 0 => runActs s.h s.g m.actsGrid
-    | 1 => match s.c with | some c => runActs s.h c m.actsGrid | none => s.h
-    | 2 => match s.e with | some e => runActs s.h e m.actsDs | none => s.h
-    | _ => match s.inputs.head? with | some i => runActs s.h i m.actsDs | none => s.h
+    | 0 => runActs s.h s.g (actsOf true kind var step)
+    | 1 => match s.c with | some c => runActs s.h c (actsOf true kind var step) | none => s.h
+    | 2 => match s.e with | some e => runActs s.h e (actsOf false kind var step) | none => s.h
+    | _ => match s.inputs.head? with | some i => runActs s.h i (actsOf false kind var step) | none => s.h
   ({ s with h := h' },
    [optFrame s.h h' (some s.g), optFrame s.h h' s.c, optFrame s.h h' s.e, optFrame s.h h' s.inputs.head?])
 
@@ -134,10 +144,16 @@ def triple : P (Nat × Nat × Nat) := do
   let a ← nat; let b ← nat; let c ← nat
   pure (a, b, c)
 
-def modelRun (asIs : Bool) (kind flags copyApi exportApi : Nat) (prog : List (Nat × Nat × Nat)) : String :=
+def preSteps (s : St) : Nat → List (Nat × Nat × Nat) → St
+  | _, [] => s
+  | i, (_, kind, var) :: l => preSteps { s with h := runActs s.h s.g (actsOf true kind var (500 + i)) } (i + 1) l
+
+/-- `pre`: what happens to the grid BEFORE it is copied / exported (derivations, cache fills) -/
+def modelRun (asIs : Bool) (kind flags copyApi exportApi : Nat) (pre prog : List (Nat × Nat × Nat)) : String :=
   let before := inputsBefore kind flags
-  let s0 := buildOp asIs kind flags
-  let ro := s0.inputs.map fun i => fcode (frameJ before s0.h i)
+  let sb := buildOp asIs kind flags
+  let ro := sb.inputs.map fun i => fcode (frameJ before sb.h i)
+  let s0 := preSteps sb 0 pre
   let (s1, jc) := match copyApiOf copyApi with
     | some api => let r := copyOp asIs api s0.h s0.g
                   ({ s0 with h := r.1, c := some r.2 }, vcode (judge r.1 s0.g r.2))
@@ -163,11 +179,12 @@ def handle (cmd : String) (args : List Int) : Option String :=
       let (h, h', r) ← run (do let h ← heapP; let h' ← heapP; let r ← nat; pure (h, h', r)) args
       pure (encFrame (frameJ h h' r))
   | "C19.model" => do
-      let (m, k, f, ca, ea, prog) ← run (do
+      let (m, k, f, ca, ea, pre, prog) ← run (do
         let m ← nat; let k ← nat; let f ← nat; let ca ← int; let ea ← int
+        let pre ← list triple
         let prog ← list triple
-        pure (m, k, f, ca, ea, prog)) args
-      pure (modelRun (m != 0) k f (if ca < 0 then 99 else ca.toNat) (if ea < 0 then 99 else ea.toNat) prog)
+        pure (m, k, f, ca, ea, pre, prog)) args
+      pure (modelRun (m != 0) k f (if ca < 0 then 99 else ca.toNat) (if ea < 0 then 99 else ea.toNat) pre prog)
   | _ => none
 
 end UxVerif.Driver.C19
